@@ -5,7 +5,7 @@ from pathlib import Path
 
 from common import fresh_dir
 
-LIT_SRC = {"@empty": '""', "@s": '"s"', "@its": '"it\'s"'}
+LIT_SRC = {"@empty": '""', "@s": '"s"', "@its": '"it\'s"', "@dqboth": "'\"quoted\"'", "@dqend": "'say \"hi\"'", "@bsl": "'a\\\\b'"}
 
 
 def lit_src(src: str) -> str:
